@@ -357,9 +357,11 @@ def drop_empty_after_strip(ctx, rule):
     pred_ok = False
     if cb is not None:
         e = ctx.sym(cb).local(0)
-        if e[0] == "binop" and e[1] in U.CMP_OPS and U.is_const(e[3]) and U.expr_calls(e[2], "Word::len"):
-            c = S.const_value(e[3])
-            vals = [U.cmp_eval(e[1], v, c) for v in (0, 1, 2, 50)]
+        # any test of the word's length against a constant that keeps exactly the non-empty words:
+        # len() > 0, 0 < len(), len() != 0, len() >= 1, !is_empty() ...
+        lt = U.len_test(e)
+        if lt is not None and (U.expr_calls(e, "Word::len") or U.expr_calls(e, "Word::is_empty")):
+            vals = [lt[1](v) for v in (0, 1, 2, 50)]
             pred_ok = vals == [False, True, True, True]
     if after and pred_ok:
         ctx.ok(rule, key, where(b, rb, rt), "emptied words are dropped after stripping (retain(len > 0))", nontrivial=True)
@@ -651,10 +653,14 @@ def word_shape_rules(ctx, rule):
         # MIR lowers `a || b` into branches writing a temp; accept: some path assigns fin from `Ne(right, 0)` and another from `true`
         ne0 = False
         for bi, si, st in b.iter_stmts():
-            if st["k"] == "assign" and st["rv"]["k"] == "binop" and st["rv"]["op"] == "Ne":
+            if st["k"] == "assign" and st["rv"]["k"] == "binop" and st["rv"]["op"] in ("Ne", "Gt", "Lt", "Ge", "Le"):
                 e = sy.rvalue(st["rv"])
-                if S.const_value(e[3]) == 0 and is_count_of(e[2], True):
-                    ne0 = True
+                # right != 0, 0 != right, right > 0, 0 < right, right >= 1
+                for cnt, cst, op in ((e[2], e[3], e[1]), (e[3], e[2], {"Gt": "Lt", "Lt": "Gt", "Ge": "Le", "Le": "Ge"}.get(e[1], e[1]))):
+                    if U.is_const(cst) and isinstance(S.const_value(cst), int) and is_count_of(cnt, True):
+                        c_ = S.const_value(cst)
+                        if [U.cmp_eval(op, v_, c_) for v_ in (0, 1, 2, 9)] == [False, True, True, True]:
+                            ne0 = True
         if fa and ne0:
             ctx.ok(rule, k, b.where(), "a word that loses trailing characters becomes finished (fin = fin || right != 0)", nontrivial=True)
         else:
